@@ -1,4 +1,202 @@
 package engine
 
-// SelfTest runs the overlay kill-matrix (tests the checker, not the repository).
-func SelfTest(ids []string, repo, verif string) int { return 0 }
+import (
+	"encoding/json"
+	"fmt"
+	"os"
+	"path/filepath"
+	"runtime"
+	"sort"
+	"strings"
+)
+
+// Kill-matrix: every catalogued single-instance break (M) is applied as an in-memory
+// overlay of /repo's current file, must still type-check, and must make the named
+// property checks fail; every catalogued behaviour-preserving rewrite (N) must keep them
+// silent. This tests the CHECKER: a surviving mutant is never a VIOLATION of a property.
+
+type Mutant struct {
+	ID    string   `json:"id"`
+	Kind  string   `json:"kind"` // "M" | "N"
+	Props []string `json:"props"`
+	File  string   `json:"file"`
+	Old   string   `json:"old"`
+	New   string   `json:"new"`
+	Old2  string   `json:"old2"`
+	New2  string   `json:"new2"`
+	Note  string   `json:"note"`
+}
+
+type MutantResult struct {
+	ID      string `json:"id"`
+	Kind    string `json:"kind"`
+	Prop    string `json:"property"`
+	Outcome string `json:"outcome"` // killed | SURVIVED | silent | NOISY | stale | invalid
+	Detail  string `json:"detail,omitempty"`
+}
+
+func loadCatalogue(verif string) ([]Mutant, error) {
+	b, err := os.ReadFile(filepath.Join(verif, "selftest", "catalogue.json"))
+	if err != nil {
+		return nil, err
+	}
+	var ms []Mutant
+	if err := json.Unmarshal(b, &ms); err != nil {
+		return nil, err
+	}
+	return ms, nil
+}
+
+func dropCaches(p *Prog) {
+	regCache.Delete(p)
+	walkCache.Delete(walkKey{p, nil})
+}
+
+func failingKeys(c *Ctx, ff *FindingsFile) map[string]string {
+	known := map[string]bool{}
+	if ff != nil {
+		for _, f := range ff.Findings {
+			if f.Status == "known" {
+				known[f.Key] = true
+			}
+		}
+	}
+	out := map[string]string{}
+	for _, o := range c.Obls {
+		if o.Status != Discharged && !known[o.Key] {
+			out[o.Key] = o.Detail
+		}
+	}
+	return out
+}
+
+// RunKillMatrix applies the catalogue entries that name one of the given properties.
+func RunKillMatrix(ids []string, repo, verif string, ff *FindingsFile) ([]MutantResult, error) {
+	cat, err := loadCatalogue(verif)
+	if err != nil {
+		return nil, err
+	}
+	want := map[string]bool{}
+	for _, id := range ids {
+		want[id] = true
+	}
+	// baseline
+	base, err := Load(Config{Repo: repo})
+	if err != nil {
+		return nil, fmt.Errorf("baseline load: %v", err)
+	}
+	baseline := map[string]map[string]string{}
+	for id := range want {
+		pd := Lookup(id)
+		if pd == nil {
+			continue
+		}
+		baseline[id] = failingKeys(RunOn(pd, base, "quick"), ff)
+	}
+	dropCaches(base)
+	var results []MutantResult
+	for _, m := range cat {
+		var props []string
+		for _, pr := range m.Props {
+			if want[pr] {
+				props = append(props, pr)
+			}
+		}
+		if len(props) == 0 {
+			continue
+		}
+		abs := filepath.Join(repo, m.File)
+		src, err := os.ReadFile(abs)
+		if err != nil {
+			results = append(results, MutantResult{ID: m.ID, Kind: m.Kind, Outcome: "stale", Detail: err.Error()})
+			continue
+		}
+		text := string(src)
+		if strings.Count(text, m.Old) != 1 || (m.Old2 != "" && strings.Count(text, m.Old2) != 1) {
+			for _, pr := range props {
+				results = append(results, MutantResult{ID: m.ID, Kind: m.Kind, Prop: pr, Outcome: "stale", Detail: "the construct this entry rewrites is no longer present exactly once in " + m.File})
+			}
+			continue
+		}
+		text = strings.Replace(text, m.Old, m.New, 1)
+		if m.Old2 != "" {
+			text = strings.Replace(text, m.Old2, m.New2, 1)
+		}
+		p, err := Load(Config{Repo: repo, Overlay: map[string][]byte{abs: []byte(text)}})
+		if err != nil {
+			for _, pr := range props {
+				results = append(results, MutantResult{ID: m.ID, Kind: m.Kind, Prop: pr, Outcome: "invalid", Detail: shorten(err.Error(), 200)})
+			}
+			continue
+		}
+		for _, pr := range props {
+			pd := Lookup(pr)
+			if pd == nil {
+				continue
+			}
+			fails := failingKeys(RunOn(pd, p, "quick"), ff)
+			var fresh []string
+			for k, d := range fails {
+				if _, was := baseline[pr][k]; !was {
+					fresh = append(fresh, k+": "+shorten(d, 140))
+				}
+			}
+			sort.Strings(fresh)
+			r := MutantResult{ID: m.ID, Kind: m.Kind, Prop: pr}
+			switch {
+			case m.Kind == "M" && len(fresh) > 0:
+				r.Outcome, r.Detail = "killed", fresh[0]
+			case m.Kind == "M":
+				r.Outcome = "SURVIVED"
+			case len(fresh) > 0:
+				r.Outcome, r.Detail = "NOISY", fresh[0]
+			default:
+				r.Outcome = "silent"
+			}
+			results = append(results, r)
+		}
+		dropCaches(p)
+		runtime.GC()
+	}
+	return results, nil
+}
+
+// Summarise condenses kill-matrix results for the evidence file.
+func Summarise(rs []MutantResult) map[string]interface{} { return summarise(rs) }
+
+func summarise(rs []MutantResult) map[string]interface{} {
+	count := map[string]int{}
+	var bad []interface{}
+	for _, r := range rs {
+		count[r.Outcome]++
+		if r.Outcome == "SURVIVED" || r.Outcome == "NOISY" || r.Outcome == "stale" || r.Outcome == "invalid" {
+			bad = append(bad, r)
+		}
+	}
+	return map[string]interface{}{
+		"applied": len(rs), "killed": count["killed"], "survived": count["SURVIVED"], "neutral_silent": count["silent"], "neutral_noisy": count["NOISY"],
+		"stale": count["stale"], "invalid": count["invalid"], "attention": bad,
+	}
+}
+
+// SelfTest runs the kill-matrix for the given properties and prints a report.
+func SelfTest(ids []string, repo, verif string) int {
+	ff, _ := LoadFindings(filepath.Join(verif, "known_findings.json"))
+	rs, err := RunKillMatrix(ids, repo, verif, ff)
+	if err != nil {
+		fmt.Println("selftest:", err)
+		return 2
+	}
+	code := 0
+	for _, r := range rs {
+		mark := "ok  "
+		if r.Outcome == "SURVIVED" || r.Outcome == "NOISY" || r.Outcome == "invalid" || r.Outcome == "stale" {
+			mark = "FAIL"
+			code = 1
+		}
+		fmt.Printf("%s %-8s %s %-26s %s %s\n", mark, r.Outcome, r.Kind, r.ID, r.Prop, shorten(r.Detail, 150))
+	}
+	s := summarise(rs)
+	fmt.Printf("selftest: applied=%v killed=%v survived=%v neutral_silent=%v neutral_noisy=%v stale=%v invalid=%v\n", s["applied"], s["killed"], s["survived"], s["neutral_silent"], s["neutral_noisy"], s["stale"], s["invalid"])
+	return code
+}
